@@ -857,3 +857,9 @@ def run(ctx: Ctx) -> None:
         rep.bad("C19.R4", cls.qname + ".store_blob", desc, cls.methods["store_blob"].loc(),
                 [f"has_blob reads {[show(t) for t in H]}", f"store_blob writes {[repr(e) for e in pubs]}"], "dbfs-marker",
                 what="DBFS presence is not decided by the last-written metadata")
+    if ctx.report.prop == "C19":
+        from .common import share_rules as _share8
+        _share8(ctx, "C17", "C19.R20", ["C17.R6"], "the DBFS store registers its Spark codec with add_codec and reads every blob by the reference its metadata names: a registration files the codec by type AND by reference, and never hands a taken reference to another codec (legacy blobs stay readable)")
+    from .storerules import uri_join_is_a_path_join as _ujp
+    ctx.report.rule("C19.R21", "the blob, metadata, copy and record locations are path joins of the configured directories whatever their spelling: `DBFSURI.joinpath` evaluated abstractly on roots with and without a trailing slash and one to three segments")
+    ctx.report.floor("C19.R21", _ujp(ctx, "C19.R21"), 8)
